@@ -130,5 +130,28 @@ Proof.
   eexists. reflexivity.
 Qed.
 
-Lemma sampler_counts : length SamplerSrc.translated_functions = 4%nat /\ length SamplerSrc.skipped_functions = 1%nat.
+(* RandomSampler (a uint32 named type: its value is the parameter): one call admits exactly when the sampler is positive
+   and the pseudo-random source - the environment, [rnd n] = what rand.Intn(n) answers for this call - answers 0; the level
+   plays no part.  With rand.Intn's contract 0 <= rnd n < n that is a share of 1/N for a uniform source; N = 1 admits
+   every event (the only value below 1 is 0) and N = 0 none. *)
+Theorem RandomSampler_Sample_src (rnd : Z -> Z) (s : N) lvl :
+  SamplerSrc.RandomSampler_Sample rnd s lvl = Ok ((0 <? s)%N && (rnd (Z.of_N s) =? 0)).
+Proof.
+  unfold SamplerSrc.RandomSampler_Sample. destruct (N.leb_spec s 0) as [H|H].
+  - replace (0 <? s)%N with false by (symmetry; apply N.ltb_ge; exact H). reflexivity.
+  - replace (0 <? s)%N with true by (symmetry; apply N.ltb_lt; exact H). cbn [andb].
+    destruct (rnd (Z.of_N s) =? 0); reflexivity.
+Qed.
+
+Corollary RandomSampler_one_admits_all (rnd : Z -> Z) lvl : (forall n, 0 <= rnd n < Z.max n 1) ->
+  SamplerSrc.RandomSampler_Sample rnd 1%N lvl = Ok true.
+Proof.
+  intros H. rewrite RandomSampler_Sample_src. cbn [N.ltb N.compare andb Z.of_N].
+  pose proof (H 1) as H1. replace (rnd 1 =? 0) with true by lia. reflexivity.
+Qed.
+
+Corollary RandomSampler_zero_admits_none (rnd : Z -> Z) lvl : SamplerSrc.RandomSampler_Sample rnd 0%N lvl = Ok false.
+Proof. reflexivity. Qed.
+
+Lemma sampler_counts : length SamplerSrc.translated_functions = 5%nat /\ length SamplerSrc.skipped_functions = 0%nat.
 Proof. split; reflexivity. Qed.
